@@ -18,17 +18,30 @@ class LoopCtx:
     def k(self):
         return self.st.locals[self._kname].v
 
+    def _lookup(self, name):
+        """a local of the frame the loop runs in; for a loop that was moved into an inlined private helper (invariant written for the caller), the caller's locals too"""
+        if name in self.st.locals:
+            return self.st.locals[name]
+        outer = (getattr(self.st, "ghost", None) or {}).get("$caller_locals")
+        if outer is not None and name in outer:
+            return outer[name]
+        raise KeyError(name)
+
     def sv(self, name) -> SV:
-        return self.st.locals[name]
+        return self._lookup(name)
 
     def has(self, name):
-        return name in self.st.locals
+        try:
+            self._lookup(name)
+            return True
+        except KeyError:
+            return False
 
     def __getattr__(self, name):
         if name.startswith("_"):
             raise AttributeError(name)
         try:
-            v = self.st.locals[name]
+            v = self._lookup(name)
         except KeyError:
             raise Unsupported(f"loop invariant refers to local {name!r} which is not bound") from None
         try:
